@@ -253,7 +253,7 @@ def task(prop, seed, size, cfgbins, long_msgs=False):
 
 def run(prop, tier, seed, t0):
     from .. import plan
-    cfgs = ['simd', 'serial32', 'simd-notables', 'fiat64', 'avx512'] if tier == 'quick' else plan.ALL_CFGS + ['simd-notables', 'simd-legacy']
+    cfgs = plan.ALL_CFGS + ['simd-notables'] if tier == 'quick' else plan.ALL_CFGS + ['simd-notables', 'simd-legacy']
     bins, notes, failed = plan.bins_for(cfgs, ('rel', 'chk') if tier == 'thorough' else ('rel',))
     if failed:
         return plan.fail_build(prop, failed)
